@@ -207,7 +207,9 @@ def dependency_model(ctx, rule):
     """rx._compute_params interpreted abstractly: the parameters an expression node is invalidated by are those of the
     nodes before it plus those of its operation's function, positional arguments AND keyword arguments."""
     f = ctx.hier.resolve(RX, "_compute_params")
-    dr, da, dk, dfn = Obj("param_of_the_root"), Obj("param_in_a_positional_argument"), Obj("param_in_a_keyword_argument"), Obj("param_of_the_function")
+    plain_owner = Obj("an_ordinary_parameterized_object", internal=False)
+    dr, da, dk, dfn = (Obj("param_of_the_root", owner=plain_owner), Obj("param_in_a_positional_argument", owner=plain_owner), Obj("param_in_a_keyword_argument", owner=plain_owner),
+                       Obj("param_of_the_function", owner=plain_owner))
     A1, K1, F = Obj("positional_argument"), Obj("keyword_argument"), Obj("operation_function")
     root = Obj("root_node", __cls__=RX, _params=[dr], _prev=None)
     node = Obj("node", __cls__=RX, _fn_params=[], _trigger=None, _prev=root, _operation={"fn": F, "args": (A1,), "kwargs": {"scale": K1}, "reverse": False})
@@ -215,8 +217,10 @@ def dependency_model(ctx, rule):
     def hook(fn, args, kwargs):
         if fn == "resolve_ref" and args:
             return {id(A1): [da], id(K1): [dk], id(F): [dfn]}.get(id(args[0]), [])
+        if fn == "isinstance" and len(args) == 2 and args[1] == "Trigger":
+            return isinstance(args[0], Obj) and args[0].attrs.get("__kind__") == "Trigger"
         return NotImplemented
-    it = Interp(ctx.hier, dyn=RX, inline=lambda m: True, call_hook=hook, strict_self_calls=True)
+    it = Interp(ctx.hier, dyn=RX, inline=lambda m: True, call_hook=hook, strict_self_calls=True, globals={"Trigger": "Trigger"})
     try:
         outs = it.run_all(f, {f.params[0]: node})
     except Unsupported as e:
@@ -226,6 +230,32 @@ def dependency_model(ctx, rule):
         raise AnalysisError("absint imprecise on rx._compute_params -- %s cannot decide" % rule)
     got = outs[0].value
     missing = [w.name for w in (dr, da, dk, dfn) if not any(x is w for x in got)]
+    # second scenario: the chain AND the positional argument are each driven by a coroutine stage, i.e. by the `value`
+    # parameter of an internal Trigger each (`total = a.rx.pipe(f) + b.rx.pipe(g)`): both triggers are dependencies
+    if not missing:
+        trig_chain = Obj("internal_trigger_of_the_chain", internal=True, __kind__="Trigger")
+        trig_arg = Obj("internal_trigger_of_the_argument_branch", internal=True, __kind__="Trigger")
+        tr = Obj("trigger_param_of_the_chain", owner=trig_chain, name="value")
+        ta = Obj("trigger_param_of_the_argument_branch", owner=trig_arg, name="value")
+        root2 = Obj("root_node", __cls__=RX, _params=[tr], _prev=None)
+        node2 = Obj("node", __cls__=RX, _fn_params=[], _trigger=None, _prev=root2, _operation={"fn": F, "args": (A1,), "kwargs": {}, "reverse": False})
+
+        def hook2(fn, args, kwargs):
+            if fn == "resolve_ref" and args:
+                return {id(A1): [ta]}.get(id(args[0]), [])
+            if fn == "isinstance" and len(args) == 2:
+                return isinstance(args[0], Obj) and args[0].attrs.get("__kind__") == "Trigger"
+            return NotImplemented
+        it2 = Interp(ctx.hier, dyn=RX, inline=lambda m: True, call_hook=hook2, strict_self_calls=True, globals={"Trigger": "Trigger"})
+        try:
+            outs2 = it2.run_all(f, {f.params[0]: node2})
+        except Unsupported as e:
+            raise AnalysisError("absint cannot interpret rx._compute_params: %s -- %s cannot decide" % (e, rule))
+        ctx.abstract_cases += 1
+        if len(outs2) != 1 or outs2[0].imprecise or outs2[0].kind != "return" or not isinstance(outs2[0].value, list):
+            raise AnalysisError("absint imprecise on rx._compute_params (two coroutine branches) -- %s cannot decide" % rule)
+        missing = [w.name + " (the completion of the coroutine of the ARGUMENT branch then never marks the joined expression dirty: it keeps a stale value or Undefined for ever)"
+                   for w in (tr, ta) if not any(x is w for x in outs2[0].value)]
     if missing:
         ctx.fail(rule, f, f.node, "rx._compute_params of a node with operation f(prev, <positional>, scale=<keyword>) does not list %s: no invalidation watcher is installed for it, "
                                   "so after a first read an update of that input leaves the expression at its cached value and .rx.watch callbacks never fire" % ", ".join(missing),
